@@ -93,12 +93,19 @@ func assertValidRange(min int, max int) {
 	}
 }
 
-func checkDeadline(tb tb) time.Time {
+func checkDeadline(tb tb) (d time.Time) {
 	t, ok := tb.(*testing.T)
 	if !ok {
 		return time.Now().Add(maxTestTimeout)
 	}
-	d, ok := t.Deadline()
+	defer func() {
+		if recover() != nil {
+			// Go 1.25+: T.Deadline panics inside a testing/synctest bubble, where the
+			// clock is fake and can not be compared with the real-time test deadline anyway
+			d = time.Now().Add(100 * 365 * maxTestTimeout)
+		}
+	}()
+	d, ok = t.Deadline()
 	if !ok {
 		return time.Now().Add(maxTestTimeout)
 	}
